@@ -258,9 +258,24 @@ func (e *Engine) call(st *State, fn *ssa.Function, args []Value, bind []Value, d
 		fr.set(p, bind[i])
 	}
 	rc := &runCtx{depth: depth}
+	pc0 := st.pc[:len(st.pc):len(st.pc)]
+	seq0 := e.restrictSeq
 	rc.tasks = append(rc.tasks, task{st, fr})
 	e.drain(rc)
-	return e.mergeOutcomes(rc.outs)
+	nouts := len(rc.outs)
+	outs := e.mergeOutcomes(rc.outs)
+	if len(outs) == 1 && outs[0].Panic == nil && nouts > 1 && e.restrictSeq == seq0 {
+		allRet := true
+		for _, o := range rc.outs {
+			if o.Panic != nil {
+				allRet = false
+			}
+		}
+		if allRet {
+			outs[0].St.pc = pc0 // all paths returned and merged: same argument as at a join
+		}
+	}
+	return outs
 }
 
 func (e *Engine) drain(rc *runCtx) {
@@ -419,6 +434,8 @@ func (e *Engine) runTask(rc *runCtx, t task) {
 			}
 			// symbolic branch: fork
 			e.stats.Forks++
+			pc0 := st.pc[:len(st.pc):len(st.pc)]
+			seq0 := e.restrictSeq
 			st2 := st.fork()
 			fr2 := fr.clone()
 			st.assume(c)
@@ -446,6 +463,11 @@ func (e *Engine) runTask(rc *runCtx, t task) {
 				arr := e.mergeArrivals(sub.arrivals)
 				if len(arr) == 0 {
 					return
+				}
+				if len(arr) == 1 && len(sub.outs) == 0 && e.restrictSeq == seq0 {
+					// every path of the region arrived here and none was restricted by an assumption:
+					// the disjunction of their conditions is the condition the region was entered with
+					arr[0].st.pc = pc0
 				}
 				for _, a := range arr[1:] {
 					rc.tasks = append(rc.tasks, a)
@@ -555,7 +577,9 @@ func (e *Engine) enterChecked(st *State, fr *frame, b *ssa.BasicBlock) bool {
 	if st.dead() {
 		return false
 	}
-	if fr.visits[b.Index] > 0 || fr.visits[fr.block.Index] > 1 {
+	// feasibility is only looked at where it is needed for termination: on back edges, and inside
+	// loop bodies that have already gone round many times
+	if fr.visits[b.Index] > 0 && fr.visits[fr.block.Index] > 0 && (b.Dominates(fr.block) || fr.visits[fr.block.Index] > 64) {
 		if !e.feasible(st) {
 			e.stats.Pruned++
 			return false
@@ -1233,16 +1257,47 @@ func (e *Engine) strIndex(rc *runCtx, st *State, s *StrV, i *term.Term, in ssa.I
 		return one(st, s.bytes()[i.Val])
 	}
 	bs := s.bytes()
-	// table lookup as ite chain over the (small) index range
+	// table lookup: the (small) index range is split into maximal runs in which the table value
+	// rises by one per index (e.g. "0123456789abcdef" has two); each run is a linear expression
 	n := len(bs)
 	if ubv := term.UB(i); int(ubv) < n-1 {
 		n = int(ubv) + 1
 	}
-	r := bs[n-1]
-	for k := n - 2; k >= 0; k-- {
-		r = term.Ite(term.Eq(i, c64(k)), bs[k], r)
+	allConst := true
+	for k := 0; k < n; k++ {
+		if !bs[k].IsConst() {
+			allConst = false
+		}
 	}
-	return one(st, r)
+	if !allConst {
+		r := bs[n-1]
+		for k := n - 2; k >= 0; k-- {
+			r = term.Ite(term.Eq(i, c64(k)), bs[k], r)
+		}
+		return one(st, r)
+	}
+	i8 := term.Extract(i, 7, 0)
+	type run struct{ start, end int } // [start,end)
+	var runs []run
+	for k := 0; k < n; {
+		j := k + 1
+		for j < n && bs[j].Val == bs[j-1].Val+1 {
+			j++
+		}
+		runs = append(runs, run{k, j})
+		k = j
+	}
+	expr := func(r run) *term.Term {
+		if r.end-r.start == 1 {
+			return bs[r.start]
+		}
+		return term.Add(i8, term.Const(8, bs[r.start].Val-uint64(r.start)))
+	}
+	res := expr(runs[len(runs)-1])
+	for k := len(runs) - 2; k >= 0; k-- {
+		res = term.Ite(term.Ult(i, c64(runs[k].end)), expr(runs[k]), res)
+	}
+	return one(st, res)
 }
 
 func (e *Engine) sliceOp(rc *runCtx, st *State, fr *frame, x *ssa.Slice) []cont {
